@@ -110,6 +110,14 @@ fn gen_config(r: &mut Rng) -> Config {
                 group: r.pick(&[vec!["{stem}.tsx".to_string(), "{stem}.test.tsx".to_string()], vec!["{stem}.rs".to_string(), "{stem}_test.rs".to_string()], vec!["{stem}.tsx".to_string(), "{stem}.test.tsx".to_string(), "{stem}.stories.tsx".to_string()]]).clone(),
                 severity: SiblingSeverity::Error,
             });
+            // a second group rule of the same scope, overlapping the first in its members: one group
+            // of a stem can be complete while the other is not
+            if r.chance(1, 2) {
+                ru.siblings.push(SiblingRule::Group {
+                    group: r.pick(&[vec!["{stem}.test.tsx".to_string(), "{stem}.stories.tsx".to_string()], vec!["{stem}.tsx".to_string(), "{stem}.stories.tsx".to_string()], vec!["{stem}.tsx".to_string(), "{stem}.test.tsx".to_string(), "{stem}.stories.tsx".to_string()], vec!["{stem}.tsx".to_string(), "{stem}.test.tsx".to_string()]]).clone(),
+                    severity: SiblingSeverity::Error,
+                });
+            }
         }
         s.rules.push(ru);
     }
